@@ -3,6 +3,9 @@ package main
 import (
 	"fmt"
 	"math/rand/v2"
+
+	aftpb "github.com/openconfig/gribi/v1/proto/gribi_aft"
+	spb "github.com/openconfig/gribi/v1/proto/service"
 )
 
 func srvGenCfg(r *rand.Rand, tier, flavour string) *SrvGenCfg {
@@ -80,9 +83,79 @@ func regSrvMode(name, flavour string, quick, thorough int, required []string) {
 	}
 }
 
+// srvAnswersCorpus: hand-written histories named in the text of C06 (and in the defects found):
+// a held REPLACE whose key is deleted before it resolves; an operation without a network
+// instance in the middle of a batch; a cascade on a FIB-ack session; a handover with a held
+// operation of the previous primary.
+func srvAnswersCorpus() []*CaseSpec {
+	A, R, D := spb.AFTOperation_ADD, spb.AFTOperation_REPLACE, spb.AFTOperation_DELETE
+	mk := func(fib bool, build func(b *cutBuilder, c int)) []SEv {
+		b := &cutBuilder{next: 1}
+		c := b.connect()
+		b.params(c, fib)
+		b.announce(c)
+		build(b, c)
+		return b.evs
+	}
+	op := func(b *cutBuilder, ty spb.AFTOperation_Operation, ni string, set func(o *spb.AFTOperation)) *spb.AFTOperation {
+		b.opID++
+		o := &spb.AFTOperation{Id: b.opID, NetworkInstance: ni, Op: ty, ElectionId: b.id()}
+		set(o)
+		return o
+	}
+	nh := func(i uint64) func(o *spb.AFTOperation) {
+		return func(o *spb.AFTOperation) {
+			o.Entry = &spb.AFTOperation_NextHop{NextHop: &aftpb.Afts_NextHopKey{Index: i, NextHop: &aftpb.Afts_NextHop{IpAddress: sv("10.0.0.1")}}}
+		}
+	}
+	nhg := func(g, n uint64) func(o *spb.AFTOperation) {
+		return func(o *spb.AFTOperation) {
+			o.Entry = &spb.AFTOperation_NextHopGroup{NextHopGroup: &aftpb.Afts_NextHopGroupKey{Id: g, NextHopGroup: &aftpb.Afts_NextHopGroup{NextHop: []*aftpb.Afts_NextHopGroup_NextHopKey{{Index: n, NextHop: &aftpb.Afts_NextHopGroup_NextHop{Weight: uv(1)}}}}}}
+		}
+	}
+	v4 := func(p string, g uint64) func(o *spb.AFTOperation) {
+		return func(o *spb.AFTOperation) {
+			o.Entry = &spb.AFTOperation_Ipv4{Ipv4: &aftpb.Afts_Ipv4EntryKey{Prefix: p, Ipv4Entry: &aftpb.Afts_Ipv4Entry{NextHopGroup: uv(g)}}}
+		}
+	}
+	one := func(b *cutBuilder, c int, o *spb.AFTOperation) {
+		b.ops(c, &spb.ModifyRequest{Operation: []*spb.AFTOperation{o}})
+	}
+	cfg := &SrvGenCfg{Srv: SrvCfg{Fwd: true, VRFs: []string{"VRF1"}, Default: "DEFAULT"}, Pools: DefaultPools()}
+	out := []*CaseSpec{}
+	for _, fib := range []bool{false, true} {
+		fib := fib
+		// held REPLACE whose key goes away, then further installs (D4)
+		out = append(out, srvCase(fmt.Sprintf("srv.answers/corpus/held-replace-key-deleted/%s", B(fib)), cfg, mk(fib, func(b *cutBuilder, c int) {
+			one(b, c, op(b, A, "DEFAULT", nh(1)))
+			one(b, c, op(b, A, "DEFAULT", nhg(1, 1)))
+			one(b, c, op(b, A, "DEFAULT", v4("1.0.0.0/8", 1)))
+			one(b, c, op(b, R, "DEFAULT", v4("1.0.0.0/8", 5)))
+			one(b, c, op(b, D, "DEFAULT", v4("1.0.0.0/8", 1)))
+			one(b, c, op(b, A, "DEFAULT", nh(2)))
+			one(b, c, op(b, A, "DEFAULT", nh(3)))
+			one(b, c, op(b, A, "DEFAULT", nhg(5, 2)))
+			one(b, c, op(b, A, "DEFAULT", nh(4)))
+		})))
+		// an operation without a network instance in the middle of a batch (D3)
+		out = append(out, srvCase(fmt.Sprintf("srv.answers/corpus/empty-ni-mid-batch/%s", B(fib)), cfg, mk(fib, func(b *cutBuilder, c int) {
+			b.ops(c, &spb.ModifyRequest{Operation: []*spb.AFTOperation{op(b, A, "DEFAULT", nh(1)), op(b, A, "", nh(2)), op(b, A, "DEFAULT", nh(3)), op(b, A, "NO-SUCH-NI", nh(4)), op(b, A, "DEFAULT", nh(5))}})
+		})))
+		// a cascade: prefix and group held, resolved by the next-hop
+		out = append(out, srvCase(fmt.Sprintf("srv.answers/corpus/cascade/%s", B(fib)), cfg, mk(fib, func(b *cutBuilder, c int) {
+			one(b, c, op(b, A, "DEFAULT", v4("1.0.0.0/8", 1)))
+			one(b, c, op(b, A, "DEFAULT", nhg(1, 1)))
+			one(b, c, op(b, A, "DEFAULT", nh(1)))
+			one(b, c, op(b, D, "DEFAULT", v4("1.0.0.0/8", 1)))
+		})))
+	}
+	return out
+}
+
 func init() {
 	regSrvMode("srv.election", "election", 150, 1500, []string{"msg.elec.open", "msg.ops.open"})
 	regSrvMode("srv.answers", "answers", 150, 1500, []string{"msg.ops.open", "add.cascade"})
+	modes["srv.answers"].Corpus = srvAnswersCorpus
 	regSrvMode("srv.protocol", "protocol", 200, 2000, []string{"msg.multi.3", "msg.empty.12", "msg.params.open"})
 	regSrvMode("srv.malformed", "malformed", 150, 1500, []string{"msg.ops.open"})
 	regSrvMode("srv.flushget", "flushget", 150, 1500, []string{"flush.ok", "flush.rejected", "get.ok", "get.err"})
@@ -92,6 +165,6 @@ func init() {
 	props["C06"] = &PropSpec{Mode: "srv.answers", Diffs: []string{"msg.", "pend"}, Monitors: []string{"c06"}}
 	props["C09"] = &PropSpec{Mode: "srv.protocol", Diffs: []string{"msg.", "sess", "elec", "master"}, Monitors: []string{"c09"}}
 	props["C12"] = &PropSpec{Mode: "srv.malformed", Diffs: []string{"msg.", "ents", "pend", "refs", "crash", "add.", "del."}, Monitors: []string{"c12"}}
-	props["C08"] = &PropSpec{Mode: "srv.flushget", Diffs: []string{"flush", "ents", "refs", "hooks"}, Monitors: []string{"c08"}}
+	props["C08"] = &PropSpec{Mode: "srv.flushget", Diffs: []string{"flush", "ents", "refs", "hooks"}, Monitors: []string{"c08", "c03"}}
 	props["C07"] = &PropSpec{Mode: "srv.flushget", Diffs: []string{"get", "ents"}, Monitors: []string{"c07"}}
 }
